@@ -7,9 +7,16 @@
 pub trait StorageTxn {
     spec fn view(&self) -> TxnView;
 
+    /// representation invariant of the backend (abstract for callers: established by Storage::txn,
+    /// required and re-established by every method)
+    spec fn inv(&self) -> bool;
+
     /// Get information about the client for this transaction
     fn get_client(&mut self) -> (r: anyhow::Result<Option<Client>>)
+        requires
+            old(self).inv(),
         ensures
+            final(self).inv(),
             read_only(old(self)@, final(self)@, r is Err),
             r is Ok ==> r->Ok_0 == client_rec(cs(old(self)@.cur, old(self)@.client_id));
 
@@ -17,16 +24,22 @@ pub trait StorageTxn {
     /// not already exist.
     fn new_client(&mut self, latest_version_id: Uuid) -> (r: anyhow::Result<()>)
         requires
+            old(self).inv(),
             !cs(old(self)@.cur, old(self)@.client_id).exists,   // [st.new_client.pre C03 C01 C13]
+            !old(self)@.commit_attempted,   // [st.write_before_commit C13 C05]
         ensures
+            final(self).inv(),
             r is Ok ==> wrote(old(self)@, final(self)@, new_client_spec(latest_version_id)),
             r is Err ==> write_failed(old(self)@, final(self)@, new_client_spec(latest_version_id));
 
     /// Set the client's most recent snapshot.
     fn set_snapshot(&mut self, snapshot: Snapshot, data: Vec<u8>) -> (r: anyhow::Result<()>)
         requires
+            old(self).inv(),
             cs(old(self)@.cur, old(self)@.client_id).exists,   // [st.set_snapshot.pre C13 C10]
+            !old(self)@.commit_attempted,   // [st.write_before_commit C13 C05]
         ensures
+            final(self).inv(),
             r is Ok ==> wrote(old(self)@, final(self)@,
                 set_snapshot_spec(cs(old(self)@.cur, old(self)@.client_id), snapshot, data@)),
             r is Err ==> write_failed(old(self)@, final(self)@,
@@ -36,9 +49,11 @@ pub trait StorageTxn {
     /// is used to verify that the snapshot is for the correct version.
     fn get_snapshot_data(&mut self, version_id: Uuid) -> (r: anyhow::Result<Option<Vec<u8>>>)
         requires
+            old(self).inv(),
             ({ let c = cs(old(self)@.cur, old(self)@.client_id);
                c.exists && c.snapshot is Some && c.snapshot->Some_0.version_id == version_id }),   // [st.get_snapshot_data.pre C13 C11]
         ensures
+            final(self).inv(),
             read_only(old(self)@, final(self)@, r is Err),
             r is Ok ==> ({ let c = cs(old(self)@.cur, old(self)@.client_id);
                 match (r->Ok_0, c.snapshot_data) {
@@ -49,7 +64,10 @@ pub trait StorageTxn {
 
     /// Get a version, indexed by parent version id
     fn get_version_by_parent(&mut self, parent_version_id: Uuid) -> (r: anyhow::Result<Option<Version>>)
+        requires
+            old(self).inv(),
         ensures
+            final(self).inv(),
             read_only(old(self)@, final(self)@, r is Err),
             r is Ok ==> ({ let c = cs(old(self)@.cur, old(self)@.client_id);
                 if c.children.dom().contains(parent_version_id) && c.versions.dom().contains(c.children[parent_version_id]) {
@@ -60,7 +78,10 @@ pub trait StorageTxn {
 
     /// Get a version, indexed by its own version id
     fn get_version(&mut self, version_id: Uuid) -> (r: anyhow::Result<Option<Version>>)
+        requires
+            old(self).inv(),
         ensures
+            final(self).inv(),
             read_only(old(self)@, final(self)@, r is Err),
             r is Ok ==> ({ let c = cs(old(self)@.cur, old(self)@.client_id);
                 if c.versions.dom().contains(version_id) {
@@ -74,13 +95,16 @@ pub trait StorageTxn {
     ///  - increment snapshot.versions_since
     fn add_version(&mut self, version_id: Uuid, parent_version_id: Uuid, history_segment: Vec<u8>) -> (r: anyhow::Result<()>)
         requires
+            old(self).inv(),
             ({ let c = cs(old(self)@.cur, old(self)@.client_id);
                &&& c.exists
                &&& !c.versions.dom().contains(version_id)
                &&& !c.children.dom().contains(parent_version_id)
                // A8: fewer than u32::MAX versions between two snapshots
                &&& counter_bound(c) }),   // [st.add_version.pre C13 C01 C02 C07]
+            !old(self)@.commit_attempted,   // [st.write_before_commit C13 C05]
         ensures
+            final(self).inv(),
             r is Ok ==> wrote(old(self)@, final(self)@,
                 add_version_spec(cs(old(self)@.cur, old(self)@.client_id), version_id, parent_version_id, history_segment@)),
             r is Err ==> write_failed(old(self)@, final(self)@,
@@ -90,8 +114,10 @@ pub trait StorageTxn {
     /// once.  It is safe to skip this call for read-only operations.
     fn commit(&mut self) -> (r: anyhow::Result<()>)
         requires
+            old(self).inv(),
             !old(self)@.commit_attempted,   // [st.commit.pre C13 C05]
         ensures
+            final(self).inv(),
             r is Ok ==> committed(old(self)@, final(self)@),
             r is Err ==> commit_failed(old(self)@, final(self)@);
 }
@@ -105,5 +131,5 @@ pub trait Storage: Send + Sync {
         requires
             self.may_open(),   // [st.txn.single C03]
         ensures
-            r is Ok ==> open_post(r->Ok_0@, client_id);
+            r is Ok ==> open_post(r->Ok_0@, client_id) && r->Ok_0.inv();
 }
